@@ -369,7 +369,10 @@ class Fresh:
         self.count += 1
 
     def get(self, cfg, seed):
-        return self.cache[(ckey(cfg), seed)]
+        k = (ckey(cfg), seed)
+        # a configuration not built under this seed: the reference-seed build stands in (the seed clause,
+        # checked on the builds that exist under both seeds, says they are equal)
+        return self.cache[k] if k in self.cache else self.cache[(ckey(cfg), REF_SEED)]
 
 
 def run_histories(hists, seed, monitor, pool):
@@ -432,7 +435,7 @@ def shrink(hist, seed, attr, info, fresh, pool, monitor_fn=None):
 
 
 # ---------------------------------------------------------------------------------------
-def main_search(seed, n, maxops, workdir):
+def main_search(seed, n, maxops, workdir, full_seed_matrix=False):
     rng = random.Random(1000003 * seed + 6)
     info = call_worker("info", {"reactions": NAMES}, REF_SEED)[-1]
     INFO_TABLES.update({k: v for k, v in info.items() if isinstance(v, dict)})
@@ -455,6 +458,10 @@ def main_search(seed, n, maxops, workdir):
                                             ["formulate", 0, []], ["new", 0], ["align", 1, 1], ["permutate", 1],
                                             ["formulate", 1, []], ["formulate", 0, []]]},
     ]
+    fixed.append({"reaction": "jpsi_ksp_hel", "ops": [["new", 0], ["naming", 0, "parent", True], ["formulate", 0, []],
+                                                     ["naming", 0, "child", False], ["naming", 0, "parent", False],
+                                                     ["formulate", 0, []], ["new", 0], ["naming", 1, "child", False],
+                                                     ["formulate", 1, []]]})
     for k, h in enumerate(fixed):
         h["id"] = n + k
         hists.append(h)
@@ -485,12 +492,15 @@ def main_search(seed, n, maxops, workdir):
         uniq = {ckey(c): c for c in allcfg}
         # fresh interpreters under every hash seed; seed clause: fresh(s) == fresh(reference)
         seed_cmp = 0
-        for s in seeds:
-            fresh.need(uniq.values(), s, pool)
+        fresh.need(uniq.values(), REF_SEED, pool)
+        ulist = list(uniq.values())
+        share = {s: (ulist if full_seed_matrix else ulist[j::3]) for j, s in enumerate(seeds[1:])}
+        for s in seeds[1:]:
+            fresh.need(share[s], s, pool)
         for s in seeds:
             if s == REF_SEED:
                 continue
-            for c in uniq.values():
+            for c in share[s]:
                 seed_cmp += 1
                 d = diff_digest(fresh.get(c, s), fresh.get(c, REF_SEED))
                 if d and not any(f["signature"] == "seed:" + d[0] for f in failures):
@@ -518,6 +528,16 @@ def main_search(seed, n, maxops, workdir):
             for h in hists:
                 r = res[h["id"]]
                 bad = mismatches(h, r, cfgs[h["id"]], fresh, s)
+                if bad and s != REF_SEED:
+                    fresh.need(cfgs[h["id"]], s, pool)  # classify against builds under the SAME seed
+                    bad = mismatches(h, r, cfgs[h["id"]], fresh, s)
+                    for c in cfgs[h["id"]]:
+                        d = diff_digest(fresh.get(c, s), fresh.get(c, REF_SEED))
+                        if d and not any(f["signature"] == "seed:" + d[0] for f in failures):
+                            failures.append({"signature": "seed:" + d[0],
+                                             "what": "fresh-process model of one configuration depends on PYTHONHASHSEED (%d vs %d): %s: %s [%s]"
+                                                     % (s, REF_SEED, d[0], d[1], c["reaction"]),
+                                             "case": {"kind": "seed", "cfg": c, "seeds": [REF_SEED, s]}})
                 n_cmp += len(cfgs[h["id"]])
                 for fi, attr, desc in bad[:1]:
                     sig = "impure:" + attr
@@ -642,4 +662,4 @@ if __name__ == "__main__":
         mo = 12
         if "--maxops" in sys.argv:
             mo = int(sys.argv[sys.argv.index("--maxops") + 1])
-        main_search(int(sys.argv[1]), int(sys.argv[2]), mo, os.getcwd())
+        main_search(int(sys.argv[1]), int(sys.argv[2]), mo, os.getcwd(), "--full-seed-matrix" in sys.argv)
